@@ -571,3 +571,103 @@ func isByteType(t types.Type) bool {
 	b, ok := t.Underlying().(*types.Basic)
 	return ok && b.Kind() == types.Uint8
 }
+
+// ---------------------------------------------------------------- E-DECODE-END
+
+func init() {
+	register(&Rule{ID: "E-DECODE-END", Props: []string{"C11", "C12"}, Floor: 1,
+		Doc: "a decoded character width is applied at the end of the string it was decoded from: a width cut off the end (s[:len(s)-w]) comes from utf8.DecodeLastRune*, a width skipped at the start (s[w:], s[off+w:], s[:off+w]) from utf8.DecodeRune*; the width of the first character says nothing about the last one",
+		Run: ruleEDecodeEnd})
+}
+
+// decodeProvenance: the utf8 decoders whose size result v can carry (through phis, conversions and local variables).
+func decodeProvenance(v ssa.Value, out map[string]bool, seen map[ssa.Value]bool) {
+	if seen[v] {
+		return
+	}
+	seen[v] = true
+	switch x := v.(type) {
+	case *ssa.Extract:
+		if c, ok := x.Tuple.(*ssa.Call); ok && x.Index == 1 {
+			if full := calleeFullName(&c.Call); strings.HasPrefix(full, "unicode/utf8.Decode") {
+				out[strings.TrimPrefix(full, "unicode/utf8.")] = true
+			}
+		}
+	case *ssa.Phi:
+		for _, e := range x.Edges {
+			decodeProvenance(e, out, seen)
+		}
+	case *ssa.Convert:
+		decodeProvenance(x.X, out, seen)
+	case *ssa.ChangeType:
+		decodeProvenance(x.X, out, seen)
+	case *ssa.UnOp:
+		if x.Op == token.MUL {
+			if al, ok := x.X.(*ssa.Alloc); ok && al.Referrers() != nil {
+				for _, ref := range *al.Referrers() {
+					if st, ok := ref.(*ssa.Store); ok && st.Addr == al {
+						decodeProvenance(st.Val, out, seen)
+					}
+				}
+			}
+		}
+	}
+}
+
+func ruleEDecodeEnd(p *Program, r *Reporter) {
+	for _, fn := range p.ReachFuncs(p.Eval, p.Lexer, p.Parser) {
+		name := p.FuncName(fn)
+		n := 0
+		for _, b := range fn.Blocks {
+			for _, in := range b.Instrs {
+				sl, ok := in.(*ssa.Slice)
+				if !ok || !isStringType(sl.X.Type()) {
+					continue
+				}
+				// (width, applied at which end)
+				type use struct {
+					w   ssa.Value
+					end string
+				}
+				var uses []use
+				if sl.Low != nil {
+					uses = append(uses, use{sl.Low, "start"})
+					if bo, ok := sl.Low.(*ssa.BinOp); ok && bo.Op == token.ADD {
+						uses = append(uses, use{bo.X, "start"}, use{bo.Y, "start"})
+					}
+				}
+				if bo, ok := sl.High.(*ssa.BinOp); ok {
+					switch bo.Op {
+					case token.ADD:
+						uses = append(uses, use{bo.X, "start"}, use{bo.Y, "start"})
+					case token.SUB:
+						if c, ok := bo.X.(*ssa.Call); ok && builtinName(&c.Call) == "len" {
+							uses = append(uses, use{bo.Y, "end"})
+						}
+					}
+				}
+				for _, u := range uses {
+					prov := map[string]bool{}
+					decodeProvenance(u.w, prov, map[ssa.Value]bool{})
+					if len(prov) == 0 {
+						continue
+					}
+					n++
+					key := fmt.Sprintf("%s width#%d", name, n)
+					bad := ""
+					for d := range prov {
+						last := strings.HasPrefix(d, "DecodeLast")
+						if last != (u.end == "end") {
+							bad = d
+						}
+					}
+					if bad != "" {
+						r.Bad(instrPos(sl), key, fmt.Sprintf("a width obtained from utf8.%s is applied at the %s of the string: the character there can have another width", bad, u.end))
+					} else {
+						r.OK(sl.Pos(), key, "width applied at the "+u.end+" of the string was decoded there")
+					}
+				}
+			}
+		}
+	}
+}
